@@ -53,6 +53,13 @@ D1More == {
   MCall("copysign", << y, x >>), IfE(Cmp(x, ">=", y), x, y), IfE(Lt0, KI(-1), KI(1)),
   CSE(Fn("sin", x), "pre", "pymbolic_expr"), Fn("sqrt", x), Call(ff, << x, y >>), MCall("sin", << x, y >>),
   MCall("atan2", << y, x >>), N("Sum", << x >>), N("Product", << x >>) }
+\* round 4: a power of a power with a half-integer float exponent over a base that is negative at
+\* points of the box: (u**2)**1.5 is |u|**3, not u**3 (PyNum models x ** (k/2) on perfect squares)
+HalfF(k) == K(FltV(k, 2))
+PowPow == { B("Power", B("Power", u, KI(2)), HalfF(k)) : u \in { x, N("Sum", << x, y >>) }, k \in { 1, 3 } }
+          \cup { N("Product", << y, B("Power", B("Power", x, KI(2)), HalfF(3)) >>),
+                 B("Quotient", KI(1), B("Power", B("Power", x, KI(2)), HalfF(1))),
+                 B("Power", B("Power", x, KI(4)), HalfF(1)), B("Power", B("Power", x, HalfF(1)), KI(2)) }
 \* roots only (not in the pools): witnesses of the named deviations and wrapped constants
 RootsOnly == { B("Power", x, CSE0(KI(2))), B("Power", N("Sum", << x, y >>), CSE0(y)),
                B("Power", x, IfE(Cmp(y, "<", KI(0)), KI(2), KI(3))), B("Power", CSE0(y), x),
@@ -63,7 +70,31 @@ RootsOnly == { B("Power", x, CSE0(KI(2))), B("Power", N("Sum", << x, y >>), CSE0
                MCall("exp", << x, y >>), MCall("cos", << x, x >>), MCall("tanh", << y, x >>),
                MCall("fabs", << x, y >>), MCall("copysign", << x >>), MCall("copysign", << x, y, y >>),
                N("Sum", << x, MCall("log", << x, KI(2) >>) >>) }
+             \cup PowPow
 D1 == IF Quick THEN D1Q ELSE D1Q \cup D1More
+
+\* Round 4: node kinds the differentiator has no rule of its own for ("foreign" kinds, C10_Diff):
+\* calls with keyword arguments - of the environment's table function f (positional / keyword
+\* argument depending on the variable, both, neither) and of a table function of math held in a
+\* CallKw node -, attribute lookups (a constant attribute of an object; of something depending on
+\* the variable), FunctionSymbol() and NaN().
+Kw(nm, u) == KwArg(nm, u)
+ForeignQ == {
+  CallKw(ff, << x >>, << Kw("k1", KI(1)) >>),
+  CallKw(ff, << KI(2) >>, << Kw("k1", x) >>),
+  CallKw(ff, << x, y >>, << Kw("k2", N("Product", << x, y >>)) >>),
+  CallKw(ff, << y >>, << Kw("k1", KI(1)) >>),
+  CallKw(MF("sin"), << x >>, << >>),
+  Look(V("o1"), "p"), Look(x, "p"),
+  V("<FunctionSymbol>"), V("<NaN>") }
+ForeignMore == {
+  CallKw(ff, << x, x, y >>, << Kw("k1", y), Kw("k2", x) >>),
+  CallKw(ff, << >>, << Kw("k2", N("Sum", << x, KI(1) >>)) >>),
+  CallKw(ff, << a0 >>, << Kw("k1", x) >>),
+  CallKw(MF("exp"), << N("Product", << KI(2), x >>) >>, << >>),
+  CallKw(MF("sin"), << x >>, << Kw("k1", KI(1)) >>),
+  CallKw(V("g"), << x >>, << Kw("k1", KI(1)) >>),
+  Look(V("o1"), "q"), Look(a0, "p"), Look(N("Sum", << x, y >>), "real") }
 
 HoleT(ty) == [t |-> "Hole", ty |-> ty]
 A == HoleT("any")  L == HoleT("leaf")  S == HoleT("small")  Cn == HoleT("cond")  Ex == HoleT("exp")
@@ -86,6 +117,7 @@ PoolFor(ty) ==
       [] ty = "cond"  -> Conds
       [] ty = "exp"   -> ExpSet
       [] ty = "mid"   -> Mid(S) \cup SmallSet \cup { a0, KI(2) }
+      [] ty = "frn"   -> IF Quick THEN ForeignQ ELSE ForeignQ \cup ForeignMore
 
 FnNames == Smooth1 \cup { "fabs", "sqrt" }
 Roots(h) ==
@@ -100,7 +132,14 @@ Deep == { N("Sum", << M, L >>), N("Product", << M, L >>), N("Product", << L, M >
           B("Quotient", L, M), B("Power", M, Ex), B("Power", S, M), Fn("sin", M), Fn("log", M), Fn("tan", M),
           Fn("cosh", M), Fn("expm1", M), Fn("fabs", M), IfE(Cn, M, L), CSE0(M) }
 
-AllRoots == Roots(A) \cup Leaves \cup D1 \cup RootsOnly \cup (IF Quick THEN {} ELSE Deep)
+\* a foreign node as the root and inside sums / products / quotients / powers / calls / wrappers
+Fr == HoleT("frn")
+ForeignRoots ==
+    { Fr, N("Sum", << Fr, A >>), N("Product", << A, Fr >>), B("Quotient", Fr, S), B("Quotient", S, Fr),
+      B("Power", Fr, Ex), B("Power", S, Fr), Fn("sin", Fr), Fn("fabs", Fr), CSE0(Fr), IfE(Lt0, Fr, S),
+      Call(ff, << Fr >>) }
+
+AllRoots == Roots(A) \cup Leaves \cup D1 \cup RootsOnly \cup ForeignRoots \cup (IF Quick THEN {} ELSE Deep)
 
 \* differentiation variables: x (and y beyond the quick tier) for every tree; a[0] where it occurs;
 \* a[0] and z where they do NOT occur only for trees with at most one non-leaf child
@@ -129,7 +168,7 @@ Next == \/ /\ NHoles(tree) > 0
 
 \* ---- random tier: deeper trees, random fills (tlc -simulate) ----------------
 M2 == HoleT("mid2")
-SimRoots == Roots(M) \cup Deep
+SimRoots == Roots(M) \cup Deep \cup { N("Sum", << Fr, M >>), N("Product", << M, Fr >>), B("Quotient", M, Fr) }
 SimPool(ty) == CASE ty = "any"  -> Leaves \cup D1 \cup Mid(S)
                  [] ty = "mid"  -> Mid(M2) \cup { x, y }
                  [] ty = "mid2" -> Mid(S) \cup SmallSet \cup { a0, KI(2) }
@@ -188,7 +227,7 @@ ASSUME \A u \in BoxArgs :
 (***************************************************************************)
 ModelVerdict(ns) ==
     LET pred == Predicted(tree, var, ns) IN
-    IF pred.r = "err" /\ pred.v.e \notin {"ValueError", "RuntimeError", "AttributeError"}
+    IF pred.r = "err" /\ pred.v.e \notin {"ValueError", "RuntimeError", "AttributeError", "NotImplementedError"}
     THEN [v |-> "SKIP", env |-> 0]       \* constant folding left the exact model
     ELSE JudgeOut(tree, var, ns, pred)
 
